@@ -2,6 +2,8 @@
 ABC = 'lightmotif/src/abc.rs'
 PWM = 'lightmotif/src/pwm/mod.rs'
 
+DENSE = 'lightmotif/src/dense.rs'
+
 MUTANTS = [
     # ---- C05
     dict(id='c05-accept-lowercase', prop='C05', rule='R5.1', file=ABC, old="b'N' => Ok(Nucleotide::N),", new="b'N' | b'n' => Ok(Nucleotide::N),"),
@@ -17,9 +19,23 @@ MUTANTS = [
     dict(id='c10-complement-both', prop='C10', rule='R10.2', file=PWM, old="data[i][s.as_index()] = row[A::complement(s).as_index()];", new="data[i][A::complement(s).as_index()] = row[A::complement(s).as_index()];", occ=1),
     dict(id='c10-complement-none', prop='C10', rule='R10.2', file=PWM, old="data[i][s.as_index()] = row[A::complement(s).as_index()];", new="data[i][s.as_index()] = row[s.as_index()];", occ=3),
     dict(id='c10-rev-outside-enumerate', prop='C10', rule='R10.2', file=PWM, old="for (i, row) in self.data.iter().rev().enumerate() {", new="for (i, row) in self.data.iter().enumerate().rev() {", occ=0),
+    # ---- C19
+    dict(id='c19-resize-forgets-rows', prop='C19', rule='R19.2', file=DENSE, old="        self.data.resize_with(rows, Default::default);\n        self.rows = rows;", new="        self.data.resize_with(rows, Default::default);\n        self.rows = self.rows.max(rows);"),
+    dict(id='c19-uninit-rows-off', prop='C19', rule='R19.2', file=DENSE, old="        m.data.set_len(rows);\n        m.rows = rows;", new="        m.data.set_len(rows);\n        m.rows = rows + 0 * m.rows;"),
+    dict(id='c19-drop-align', prop='C19', rule='R19.1', file=DENSE, old='#[cfg_attr(target_arch = "x86_64", repr(align(32)))]', new='#[cfg_attr(target_arch = "x86_64", repr(align(16)))]'),
+    dict(id='c19-manual-eq', prop='C19', rule='R19.3', file=DENSE, edits=[
+        dict(file=DENSE, old="#[derive(Clone, PartialEq, Eq)]\npub struct DenseMatrix", new="#[derive(Clone, Eq)]\npub struct DenseMatrix"),
+        dict(file=DENSE, old="// --- Iter ---", new="impl<T: MatrixElement + PartialEq, C: ArrayLength> PartialEq for DenseMatrix<T, C> { fn eq(&self, o: &Self) -> bool { unsafe { self.ravel() == o.ravel() } } }\n// --- Iter ---"),
+    ]),
+    dict(id='c19-next-back-forward', prop='C19', rule='R19.4', file=DENSE, old="self.it.next_back().map(|row| Self::get(row))", new="self.it.next().map(|row| Self::get(row))"),
+    dict(id='c19-ravel-columns', prop='C19', rule='R19.5', file=DENSE, old="std::slice::from_raw_parts(self.data.as_ptr() as *mut T, self.rows() * self.stride())", new="std::slice::from_raw_parts(self.data.as_ptr() as *mut T, self.rows() * self.columns())"),
+    dict(id='c19-stride-columns', prop='C19', rule='R19.1', file=DENSE, old="std::mem::size_of::<Row<T, C>>() / std::mem::size_of::<T>()", new="std::mem::size_of::<generic_array::GenericArray<T, C>>() / std::mem::size_of::<T>()"),
+    dict(id='c19-index-coords-swapped', prop='C19', rule='R19.4', file=DENSE, old="&self.data[index.row].a[index.col]", new="&self.data[index.col].a[index.row]"),
+    dict(id='c19-resize-filler', prop='C19', rule='R19.2', file=DENSE, old="self.data.resize_with(rows, Default::default);", new="let last = self.data.last().cloned().unwrap_or_default(); self.data.resize_with(rows, || last.clone());"),
 ]
 
 BENIGN = [
+    dict(id='c19-resize-order', prop='C19', file=DENSE, old="        self.data.resize_with(rows, Default::default);\n        self.rows = rows;", new="        self.rows = rows;\n        self.data.resize_with(rows, Default::default);"),
     dict(id='c10-index-form', prop='C10', file=PWM, occ=0,
          old="""        for (i, row) in self.data.iter().rev().enumerate() {
             for &s in A::symbols() {
